@@ -149,12 +149,12 @@ func msgCatalogue() []*eng.Case {
 
 func streamMsg(seed uint64, driver string) (*Summary, error) {
 	sum := newSummary("msg", seed)
-	sum.Rule = "every built-in test of every schema type incl. the Not() variants, required / not_nil (every inner type) / coerce, z.CustomFunc schemas (failing test, type mismatch), forced to fail once, x 11 formatter levels (global default, execution en/es, i18n none/en/es/unknown language, i18n after a HISTORY of installations with and without WithLangKey and a context naming languages under several keys) x {no test message, test-level Message}; exhaustive over this product; non-trivial = every case (each produces exactly the issue under test); distinct = distinct case line"
+	sum.Rule = "every built-in test of every schema type incl. the Not() variants, required / not_nil (every inner type) / coerce, z.CustomFunc schemas (failing test, type mismatch), forced to fail once, x 13 formatter levels (incl. language values that are not strings) (global default, execution en/es, i18n none/en/es/unknown language, i18n after a HISTORY of installations with and without WithLangKey and a context naming languages under several keys) x {no test message, test-level Message}; exhaustive over this product; non-trivial = every case (each produces exactly the issue under test); distinct = distinct case line"
 	base := msgCatalogue()
 	var cases []*eng.Case
 	for _, c := range base {
 		for _, f := range []string{"", "exec:en", "exec:es", "i18n:-", "i18n:en", "i18n:es", "i18n:fr",
-			"i18nh:locale:locale=es", "i18nh:locale,-:lang=es,locale=en", "i18nh:-,locale:lang=en,locale=es", "i18nh:a,b,-:a=es,b=es"} {
+			"i18nh:locale:locale=es", "i18nh:locale,-:lang=es,locale=en", "i18nh:-,locale:lang=en,locale=es", "i18nh:a,b,-:a=es,b=es", "i18nh:-:lang=~es", "i18nh:locale:locale=#7,lang=es"} {
 			for _, withMsg := range []bool{false, true} {
 				c2 := *c
 				c2.Fmt = f
